@@ -323,19 +323,29 @@ func (p *Parser) ParseArgs(args []string) ([]string, error) {
 	}
 
 	var reterr error
+	executed := false
 
 	if s.err != nil {
 		reterr = s.err
 	} else if len(s.command.commands) != 0 && !s.command.SubcommandsOptional {
 		reterr = s.estimateCommand()
 	} else if cmd, ok := s.command.data.(Commander); ok {
+		executed = true
+
 		if p.CommandHandler != nil {
 			reterr = p.CommandHandler(cmd, s.retargs)
 		} else {
 			reterr = cmd.Execute(s.retargs)
 		}
 	} else if p.CommandHandler != nil {
+		executed = true
 		reterr = p.CommandHandler(nil, s.retargs)
+	}
+
+	if reterr != nil && executed {
+		// The command line was parsed completely: the error is the
+		// command's, the remaining arguments are those it was given
+		return s.retargs, p.printError(reterr)
 	}
 
 	if reterr != nil {
